@@ -368,7 +368,10 @@ func c12Floor(tier string) []*C12Sc {
 		{Items: []ItemSubst{{Status: 2, Payload: "absent"}}},
 		{Items: []ItemSubst{{Status: 3, Reason: 5, Payload: "absent"}}},
 		{Items: []ItemSubst{{Status: 4, Reason: 2, Message: true, Payload: "absent"}}},
-		{Items: []ItemSubst{{Status: 1, Reason: 3, Message: true}}}, // failed but with a payload
+		{Items: []ItemSubst{{Status: 1, Reason: 3, Message: true}}},                                  // failed but with a payload
+		{Items: []ItemSubst{{Op: "absent", Status: 1, Reason: 1, Message: true, Payload: "absent"}}}, // the shape of a whole-message rejection
+		{Items: []ItemSubst{{Op: "other", OtherOp: 10, Status: 1, Reason: 4, Message: true, Payload: "absent"}}},
+		{Items: []ItemSubst{{Op: "absent", Status: 3, Reason: 2, Message: true, MsgStyle: 2, Payload: "absent"}}},
 		{Items: []ItemSubst{{Status: 1, Reason: 1, Message: true, MsgStyle: 1, Payload: "absent"}}},
 		{Items: []ItemSubst{{Status: 1, Reason: 5, Message: true, MsgStyle: 2, Payload: "absent"}}},
 		{Items: []ItemSubst{{Status: 3, Reason: 2, Message: true, MsgStyle: 3, Payload: "absent"}}},
@@ -809,7 +812,7 @@ func execC12(x *X, scAny any) {
 				x.Reportf("C12.correct-response-rejected", oc.name, "%s failed with %v although the response was conformant", oc.name, res.err)
 			}
 			// a failed item must be surfaced with status, reason and message
-			if countsOK && it.Status != 0 && it.Op == "" && len(sent) == 1 && it.Payload != "other" && it.Payload != "opaque" {
+			if countsOK && it.Status != 0 && (it.Op == "" || it.Op == "absent" || it.Op == "other" && it.Payload == "absent") && len(sent) == 1 && it.Payload != "other" && it.Payload != "opaque" {
 				checkErrCarries(x, oc.name, res.err, sent[0])
 			}
 		}
